@@ -17,8 +17,6 @@ from vkit import symex
 
 SHIM = getattr(torch, '__version__', '').endswith('symtorch')
 
-if not SHIM:
-    torch.set_default_dtype(torch.float64)
 
 _real_log: list = []
 
@@ -102,7 +100,7 @@ def from_list(data, dtype=None):
             flat[i] = v if isinstance(v, symex.SymNum) else Fraction(symex.lift(v))
         return torch.Tensor(arr, dtype or torch.get_default_dtype())
     data = _tofloat(data)
-    return torch.tensor(data, dtype=dtype or torch.float64)
+    return torch.tensor(data, dtype=dtype or torch.get_default_dtype())
 
 
 def _tofloat(d):
